@@ -19,7 +19,8 @@ ERR = bl.ERRNO
 class Scenario:
     def __init__(self, name, tree, lock=None, structured=False, use_cache=None, base=0, pad=0, crlf=False,
                  unicode_prelude=False, bad=(), extra_files=None, names=None, tmp_on_other_fs=False, maxid=None,
-                 config_class="ok", structured_key="explicit", extensions=None, opaque=None, tmp_leftovers=False, pad_mode="spread", tmp_missing=False, env=None, head_style="plain"):
+                 config_class="ok", structured_key="explicit", extensions=None, opaque=None, tmp_leftovers=False, pad_mode="spread", tmp_missing=False, env=None, head_style="plain", ci_env=False, stdout_to=None,
+                 literal_prelude=False):
         self.name = name
         if opaque is None:
             opaque = sum(len(v) for v in tree.values()) > 300
@@ -28,7 +29,8 @@ class Scenario:
         self.kw = dict(lock=lock, structured=structured, use_cache=use_cache, base=base, pad=pad, crlf=crlf,
                        unicode_prelude=unicode_prelude, bad=bad, extra_files=extra_files,
                        tmp_on_other_fs=tmp_on_other_fs, maxid=maxid, config_class=config_class,
-                       structured_key=structured_key, extensions=extensions, opaque=opaque, tmp_leftovers=tmp_leftovers, pad_mode=pad_mode, tmp_missing=tmp_missing, env=env, head_style=head_style)
+                       structured_key=structured_key, extensions=extensions, opaque=opaque, tmp_leftovers=tmp_leftovers, pad_mode=pad_mode, tmp_missing=tmp_missing, env=env, head_style=head_style, ci_env=ci_env, stdout_to=stdout_to,
+                       literal_prelude=literal_prelude)
 
     def make(self, binary, label=""):
         return history.History(binary, self.names, self.tree, label=self.name + label, **self.kw)
